@@ -137,3 +137,64 @@ Section Concrete.
         rewrite (buildlevel_below save (Z.of_nat d) l') by lia. reflexivity.
   Qed.
 End Concrete.
+
+(* ------------------------------------------------------------------------------------------ *)
+(* the single-pass evaluation used by the case files (the triangle is carried along, as in the  *)
+(* C++) equals the instance of Model.lookup                                                     *)
+(* ------------------------------------------------------------------------------------------ *)
+Lemma digits_from_acc n : forall id acc, digits_from n id acc = digits_from n id [] ++ acc.
+Proof.
+  induction n as [|n IH]; intros id acc; [reflexivity|].
+  cbn [digits_from]. rewrite (IH (id / 4) (id mod 4 :: acc)), (IH (id / 4) [id mod 4]).
+  rewrite <- app_assoc. reflexivity.
+Qed.
+
+Lemma in_level_child l id c : 0 <= l -> in_level l id -> 0 <= c < 4 -> in_level (l + 1) (4 * id + c).
+Proof. intros Hl H Hc. unfold in_level in *. rewrite Z.pow_add_r by lia. change (4 ^ 1) with 4. lia. Qed.
+
+Lemma tri_of_id_child l id c : 0 <= l -> in_level l id -> 0 <= c < 4 ->
+  tri_of_id (4 * id + c) = child_tri (tri_of_id id) c.
+Proof.
+  intros Hl Hin Hc. unfold tri_of_id.
+  rewrite (level_of_id_in_level (l + 1) (4 * id + c)) by (try apply in_level_child; try assumption; lia).
+  rewrite (level_of_id_in_level l id) by assumption.
+  replace (Z.to_nat (l + 1)) with (S (Z.to_nat l)) by lia.
+  cbn [digits_from]. rewrite digits_from_acc.
+  replace ((4 * id + c) / 4) with id by lia. replace ((4 * id + c) mod 4) with c by lia.
+  rewrite fold_left_app. cbn [fold_left]. f_equal. f_equal. f_equal.
+  rewrite !Z2Nat.id by lia. replace (Z.of_nat (S (Z.to_nat l))) with (l + 1) by lia.
+  rewrite Z.pow_add_r by lia. change (4 ^ 1) with 4.
+  assert (0 < 4 ^ l) by (apply Z.pow_pos_nonneg; lia).
+  rewrite (Z.mul_comm (4 ^ l) 4). rewrite <- Z.div_div by lia.
+  replace ((4 * id + c) / 4) with id by lia. reflexivity.
+Qed.
+
+Lemma descendF_descend eps build v : forall n lev l id,
+  0 <= l -> in_level l id -> (l = lev \/ build <= l <= lev) ->
+  descendF eps build n lev id (tri_of_id id) v = descend vec (chooseF eps build) n id v.
+Proof.
+  induction n as [|n IH]; intros lev l id Hl Hin Hlev; [reflexivity|].
+  cbn [descendF descend]. unfold step, chooseF. rewrite (level_of_id_in_level l id) by assumption.
+  destruct (first_inside eps (tri_of_id id) v) as [c|] eqn:E.
+  - pose proof (first_inside_digit _ _ _ _ E) as Hc.
+    rewrite <- (tri_of_id_child l id c) by assumption.
+    apply (IH (lev + 1) (l + 1)); [lia | apply in_level_child; assumption | lia].
+  - assert (Eb : (lev <? build) = (l <? build)) by lia. rewrite Eb.
+    destruct (l <? build) eqn:Eq.
+    + rewrite <- (tri_of_id_child l id 3) by (try assumption; lia).
+      apply (IH (lev + 1) (l + 1)); [lia | apply in_level_child; try assumption; lia | lia].
+    + apply (IH (lev + 1) l); [lia | assumption | lia].
+Qed.
+
+Lemma tri_of_id_root r : 8 <= r < 16 -> tri_of_id r = tri_of_root r.
+Proof.
+  intro H. unfold tri_of_id. rewrite (level_of_id_in_level 0 r); [|lia|unfold in_level; change (4 ^ 0) with 1; lia].
+  cbn [Z.to_nat digits_from fold_left]. change (4 ^ Z.of_nat 0) with 1. rewrite Z.div_1_r. reflexivity.
+Qed.
+
+Theorem lookupF_fast_correct eps save depth v : 8 <= rootF eps v < 16 ->
+  lookupF_fast eps save depth v = lookupF eps save depth v.
+Proof.
+  intro Hr. unfold lookupF_fast, lookupF, lookup. rewrite <- (tri_of_id_root _ Hr).
+  apply (descendF_descend eps _ v depth 0 0); [lia | unfold in_level; change (4 ^ 0) with 1; lia | left; reflexivity].
+Qed.
